@@ -105,7 +105,17 @@ def explore(inject_at=None, kind="reset", horizon=25.0, cycles=0):
                     old["accessors"] = list(m._spa.struct.accessors.values())
                 st["old"] = old
                 if kind == "reset":
-                    st["task"] = loop.create_task(m.async_reset())
+                    # run the reset to completion right here, between two loop iterations, so that it lands exactly at this await point
+                    # (it never really suspends: the client handler of this rig returns at once)
+                    coro = m.async_reset()
+                    try:
+                        coro.send(None)
+                        raise RuntimeError("async_reset suspended")
+                    except StopIteration:
+                        pass
+                    fut = loop.create_future()
+                    fut.set_result(None)
+                    st["task"] = fut
                 else:
                     st["task"] = loop.create_task(m.__aexit__(None, None, None))
         loop.on_iter = hook
